@@ -605,41 +605,61 @@ harnesses! {
     // (pass-level scenarios of step.rs are not registered: the smallest one reached 9.7 GB in the third
     //  iteration of pass 1 after 20 min even with process / Item::clone replaced by models - DESIGN.md 0)
     // ---- pass-level scenarios on stack-backed inputs (pass.rs): real build_pass_1 + build_pass_2
-    p02_instr_0 { prop: X02, feat: "c02", tier: thorough, mode: leaf, unwind: 6, caps: "drop=1" } => |s| pass::layout_instr(s, 0, false);
-    p02_instr_1 { prop: X02, feat: "c02", tier: thorough, mode: leaf, unwind: 6, caps: "drop=1" } => |s| pass::layout_instr(s, 1, false);
-    p02_instr_2 { prop: X02, feat: "c02", tier: thorough, mode: leaf, unwind: 6, caps: "drop=1" } => |s| pass::layout_instr(s, 2, false);
-    p02_instr_3 { prop: X02, feat: "c02", tier: thorough, mode: leaf, unwind: 6, caps: "drop=1" } => |s| pass::layout_instr(s, 3, false);
-    p02_instr_2_avr8l { prop: X02, feat: "c02", tier: thorough, mode: leaf, unwind: 6, caps: "drop=1" } => |s| pass::layout_instr(s, 2, true);
-    p02_instr_3_avr8l { prop: X02, feat: "c02", tier: thorough, mode: leaf, unwind: 6, caps: "drop=1" } => |s| pass::layout_instr(s, 3, true);
-    p06_db_1 { prop: X06, feat: "c06", tier: thorough, mode: leaf, unwind: 6, caps: "drop=1" } => |s| pass::layout_db(s, 1);
-    p06_db_2 { prop: X06, feat: "c06", tier: thorough, mode: leaf, unwind: 6, caps: "drop=1" } => |s| pass::layout_db(s, 2);
-    p06_db_3 { prop: X06, feat: "c06", tier: thorough, mode: leaf, unwind: 6, caps: "drop=1" } => |s| pass::layout_db(s, 3);
-    p02_eeprom_cont { prop: X02, feat: "c02", tier: thorough, mode: leaf, unwind: 6, caps: "drop=1" } => |s| pass::eeprom_blocks(s, false);
-    p02_eeprom_org { prop: X02, feat: "c02", tier: thorough, mode: leaf, unwind: 6, caps: "drop=1" } => |s| pass::eeprom_blocks(s, true);
-    p06_reserve { prop: X06, feat: "c06", tier: thorough, mode: leaf, unwind: 6, caps: "drop=1" } => |s| pass::reservations(s, false);
-    p06_reserve_org { prop: X06, feat: "c06", tier: thorough, mode: leaf, unwind: 6, caps: "drop=1" } => |s| pass::reservations(s, true);
-    p06_wrongseg_0 { prop: X06, feat: "c06", tier: thorough, mode: leaf, unwind: 6, caps: "drop=1" } => |s| pass::wrong_segment(s, 0);
-    p06_wrongseg_1 { prop: X06, feat: "c06", tier: thorough, mode: leaf, unwind: 6, caps: "drop=1" } => |s| pass::wrong_segment(s, 1);
-    p06_wrongseg_2 { prop: X06, feat: "c06", tier: thorough, mode: leaf, unwind: 6, caps: "drop=1" } => |s| pass::wrong_segment(s, 2);
-    p06_wrongseg_3 { prop: X06, feat: "c06", tier: thorough, mode: leaf, unwind: 6, caps: "drop=1" } => |s| pass::wrong_segment(s, 3);
-    p06_wrongseg_4 { prop: X06, feat: "c06", tier: thorough, mode: leaf, unwind: 6, caps: "drop=1" } => |s| pass::wrong_segment(s, 4);
-    p06_wrongseg_5 { prop: X06, feat: "c06", tier: thorough, mode: leaf, unwind: 6, caps: "drop=1" } => |s| pass::wrong_segment(s, 5);
-    p06_wrongseg_6 { prop: X06, feat: "c06", tier: thorough, mode: leaf, unwind: 6, caps: "drop=1" } => |s| pass::wrong_segment(s, 6);
-    p10_set_seq { prop: X10, feat: "c10", tier: thorough, mode: leaf, unwind: 6, caps: "drop=1" } => |s| pass::set_sequence(s, 0);
-    p10_set_frozen { prop: X10, feat: "c10", tier: thorough, mode: leaf, unwind: 6, caps: "drop=1" } => |s| pass::set_sequence(s, 1);
-    p10_set_dseg { prop: X10, feat: "c10", tier: thorough, mode: leaf, unwind: 6, caps: "drop=1" } => |s| pass::set_in_dseg(s);
-    p10_set_conflict { prop: X10, feat: "c10", tier: thorough, mode: leaf, unwind: 6, caps: "drop=1" } => |s| pass::set_conflict(s);
-    p10_def { prop: X10, feat: "c10", tier: thorough, mode: leaf, unwind: 6, caps: "drop=1" } => |s| pass::def_undef(s, 0);
-    p10_undef { prop: X10, feat: "c10", tier: thorough, mode: leaf, unwind: 6, caps: "drop=1" } => |s| pass::def_undef(s, 1);
-    p10_undef_use { prop: X10, feat: "c10", tier: thorough, mode: leaf, unwind: 6, caps: "drop=1" } => |s| pass::def_undef(s, 2);
-    p10_duplabel_0 { prop: X10, feat: "c10", tier: thorough, mode: leaf, unwind: 6, caps: "drop=1" } => |s| pass::duplicate_label(s, 0);
-    p10_duplabel_1 { prop: X10, feat: "c10", tier: thorough, mode: leaf, unwind: 6, caps: "drop=1" } => |s| pass::duplicate_label(s, 1);
-    p10_duplabel_2 { prop: X10, feat: "c10", tier: thorough, mode: leaf, unwind: 6, caps: "drop=1" } => |s| pass::duplicate_label(s, 2);
-    p10_duplabel_3 { prop: X10, feat: "c10", tier: thorough, mode: leaf, unwind: 6, caps: "drop=1" } => |s| pass::duplicate_label(s, 3);
-    p13_pass2_mul { prop: X13, feat: "c13", tier: thorough, mode: leaf, unwind: 6, caps: "drop=1" } => |s| pass::gate_in_pass2(s, 0);
-    p13_pass2_ldx { prop: X13, feat: "c13", tier: thorough, mode: leaf, unwind: 6, caps: "drop=1" } => |s| pass::gate_in_pass2(s, 1);
-    p13_pass2_lpmz { prop: X13, feat: "c13", tier: thorough, mode: leaf, unwind: 6, caps: "drop=1" } => |s| pass::gate_in_pass2(s, 2);
-    p02_offsets { prop: X02, feat: "c02", tier: thorough, mode: leaf, unwind: 6, caps: "drop=1" } => |s| pass::running_offsets(s);
+    p02_instr_0_at2 { prop: X02, feat: "c02", tier: thorough, mode: leaf, unwind: 6, caps: "drop=1,eq=1" } => |s| pass::instr_label(s, 0, false, 2);
+    p02_instr_1_at0 { prop: X02, feat: "c02", tier: thorough, mode: leaf, unwind: 6, caps: "drop=1,eq=1" } => |s| pass::instr_label(s, 1, false, 0);
+    p02_instr_1_at2 { prop: X02, feat: "c02", tier: thorough, mode: leaf, unwind: 6, caps: "drop=1,eq=1" } => |s| pass::instr_label(s, 1, false, 2);
+    p02_instr_2_at1 { prop: X02, feat: "c02", tier: thorough, mode: leaf, unwind: 6, caps: "drop=1,eq=1" } => |s| pass::instr_label(s, 2, false, 1);
+    p02_instr_3_at0 { prop: X02, feat: "c02", tier: thorough, mode: leaf, unwind: 6, caps: "drop=1,eq=1" } => |s| pass::instr_label(s, 3, false, 0);
+    p02_instr_2_avr8l { prop: X02, feat: "c02", tier: thorough, mode: leaf, unwind: 6, caps: "drop=1,eq=1" } => |s| pass::instr_label(s, 2, true, 1);
+    p02_instr_3_avr8l { prop: X02, feat: "c02", tier: thorough, mode: leaf, unwind: 6, caps: "drop=1,eq=1" } => |s| pass::instr_label(s, 3, true, 1);
+    p03_pc_0_at2 { prop: X03, feat: "c03", tier: thorough, mode: leaf, unwind: 6, caps: "drop=1,eq=1" } => |s| pass::pc_value(s, 0, 2);
+    p03_pc_1_at1 { prop: X03, feat: "c03", tier: thorough, mode: leaf, unwind: 6, caps: "drop=1,eq=1" } => |s| pass::pc_value(s, 1, 1);
+    p03_pc_2_at0 { prop: X03, feat: "c03", tier: thorough, mode: leaf, unwind: 6, caps: "drop=1,eq=1" } => |s| pass::pc_value(s, 2, 0);
+    p06_db_1_at0 { prop: X06, feat: "c06", tier: thorough, mode: leaf, unwind: 6, caps: "drop=1,eq=1" } => |s| pass::layout_db(s, 1, 0);
+    p06_db_1_at1 { prop: X06, feat: "c06", tier: thorough, mode: leaf, unwind: 6, caps: "drop=1,eq=1" } => |s| pass::layout_db(s, 1, 1);
+    p06_db_2_at0 { prop: X06, feat: "c06", tier: thorough, mode: leaf, unwind: 6, caps: "drop=1,eq=1" } => |s| pass::layout_db(s, 2, 0);
+    p06_db_2_at1 { prop: X06, feat: "c06", tier: thorough, mode: leaf, unwind: 6, caps: "drop=1,eq=1" } => |s| pass::layout_db(s, 2, 1);
+    p06_db_3_at0 { prop: X06, feat: "c06", tier: thorough, mode: leaf, unwind: 6, caps: "drop=1,eq=1" } => |s| pass::layout_db(s, 3, 0);
+    p06_db_3_at1 { prop: X06, feat: "c06", tier: thorough, mode: leaf, unwind: 6, caps: "drop=1,eq=1" } => |s| pass::layout_db(s, 3, 1);
+    p02_eeprom_org { prop: X02, feat: "c02", tier: thorough, mode: leaf, unwind: 6, caps: "drop=1,eq=1" } => |s| pass::eeprom_small(s, 0, 0);
+    p02_eeprom_label { prop: X02, feat: "c02", tier: thorough, mode: leaf, unwind: 6, caps: "drop=1,eq=1" } => |s| pass::eeprom_small(s, 1, 0);
+    p06_reserve_0 { prop: X06, feat: "c06", tier: thorough, mode: leaf, unwind: 6, caps: "drop=1,eq=1" } => |s| pass::eeprom_small(s, 2, 0);
+    p06_reserve_1 { prop: X06, feat: "c06", tier: thorough, mode: leaf, unwind: 6, caps: "drop=1,eq=1" } => |s| pass::eeprom_small(s, 2, 1);
+    p06_reserve_3 { prop: X06, feat: "c06", tier: thorough, mode: leaf, unwind: 6, caps: "drop=1,eq=1" } => |s| pass::eeprom_small(s, 2, 3);
+    p12_ramext_0_2 { prop: X12, feat: "c12", tier: thorough, mode: leaf, unwind: 6, caps: "drop=1,eq=1" } => |s| pass::ram_extent(s, 0, 2);
+    p12_ramext_4_3 { prop: X12, feat: "c12", tier: thorough, mode: leaf, unwind: 6, caps: "drop=1,eq=1" } => |s| pass::ram_extent(s, 4, 3);
+    p12_ramext_1_0 { prop: X12, feat: "c12", tier: thorough, mode: leaf, unwind: 6, caps: "drop=1,eq=1" } => |s| pass::ram_extent(s, 1, 0);
+    p02_offsets { prop: X02, feat: "c02", tier: thorough, mode: leaf, unwind: 6, caps: "drop=1,eq=1" } => |s| pass::offsets_small(s);
+    p06_wrongseg_0 { prop: X06, feat: "c06", tier: thorough, mode: leaf, unwind: 6, caps: "drop=1,eq=1" } => |s| pass::wrong_segment(s, 0);
+    p06_wrongseg_1 { prop: X06, feat: "c06", tier: thorough, mode: leaf, unwind: 6, caps: "drop=1,eq=1" } => |s| pass::wrong_segment(s, 1);
+    p06_wrongseg_2 { prop: X06, feat: "c06", tier: thorough, mode: leaf, unwind: 6, caps: "drop=1,eq=1" } => |s| pass::wrong_segment(s, 2);
+    p06_wrongseg_3 { prop: X06, feat: "c06", tier: thorough, mode: leaf, unwind: 6, caps: "drop=1,eq=1" } => |s| pass::wrong_segment(s, 3);
+    p06_wrongseg_4 { prop: X06, feat: "c06", tier: thorough, mode: leaf, unwind: 6, caps: "drop=1,eq=1" } => |s| pass::wrong_segment(s, 4);
+    p06_wrongseg_5 { prop: X06, feat: "c06", tier: thorough, mode: leaf, unwind: 6, caps: "drop=1,eq=1" } => |s| pass::wrong_segment(s, 5);
+    p06_wrongseg_6 { prop: X06, feat: "c06", tier: thorough, mode: leaf, unwind: 6, caps: "drop=1,eq=1" } => |s| pass::wrong_segment(s, 6);
+    p10_set_use { prop: X10, feat: "c10", tier: thorough, mode: leaf, unwind: 6, caps: "drop=1,eq=1" } => |s| pass::set_use(s);
+    p10_set_twice { prop: X10, feat: "c10", tier: thorough, mode: leaf, unwind: 6, caps: "drop=1,eq=1" } => |s| pass::set_twice(s);
+    p10_set_dseg { prop: X10, feat: "c10", tier: thorough, mode: leaf, unwind: 6, caps: "drop=1,eq=1" } => |s| pass::set_dseg_small(s);
+    p10_set_conflict { prop: X10, feat: "c10", tier: thorough, mode: leaf, unwind: 6, caps: "drop=1,eq=1" } => |s| pass::set_conflict(s);
+    p10_def { prop: X10, feat: "c10", tier: thorough, mode: leaf, unwind: 6, caps: "drop=1,eq=1" } => |s| pass::def_small(s, 0);
+    p10_undef { prop: X10, feat: "c10", tier: thorough, mode: leaf, unwind: 6, caps: "drop=1,eq=1" } => |s| pass::def_small(s, 1);
+    p10_undef_use { prop: X10, feat: "c10", tier: thorough, mode: leaf, unwind: 6, caps: "drop=1,eq=1" } => |s| pass::def_small(s, 2);
+    p10_duplabel_0 { prop: X10, feat: "c10", tier: thorough, mode: leaf, unwind: 6, caps: "drop=1,eq=1" } => |s| pass::duplicate_label(s, 0);
+    p10_duplabel_1 { prop: X10, feat: "c10", tier: thorough, mode: leaf, unwind: 6, caps: "drop=1,eq=1" } => |s| pass::duplicate_label(s, 1);
+    p10_duplabel_2 { prop: X10, feat: "c10", tier: thorough, mode: leaf, unwind: 6, caps: "drop=1,eq=1" } => |s| pass::duplicate_label(s, 2);
+    p10_duplabel_3 { prop: X10, feat: "c10", tier: thorough, mode: leaf, unwind: 6, caps: "drop=1,eq=1" } => |s| pass::duplicate_label(s, 3);
+    p13_pass2_mul { prop: X13, feat: "c13", tier: thorough, mode: leaf, unwind: 6, caps: "drop=1,eq=1" } => |s| pass::gate_in_pass2(s, 0);
+    p13_pass2_ldx { prop: X13, feat: "c13", tier: thorough, mode: leaf, unwind: 6, caps: "drop=1,eq=1" } => |s| pass::gate_in_pass2(s, 1);
+    p13_pass2_lpmz { prop: X13, feat: "c13", tier: thorough, mode: leaf, unwind: 6, caps: "drop=1,eq=1" } => |s| pass::gate_in_pass2(s, 2);
+    // ---- C08: conditional assembly on fixed shapes with symbolic condition values (c08.rs)
+    c08_shape_0 { prop: X08, feat: "c08", tier: thorough, mode: cond, unwind: 10, caps: "drop=1,dropdoc=1" } => |s| c08::cond_shape(s, 0);
+    c08_shape_1 { prop: X08, feat: "c08", tier: thorough, mode: cond, unwind: 10, caps: "drop=1,dropdoc=1" } => |s| c08::cond_shape(s, 1);
+    c08_shape_2 { prop: X08, feat: "c08", tier: thorough, mode: cond, unwind: 10, caps: "drop=1,dropdoc=1" } => |s| c08::cond_shape(s, 2);
+    c08_shape_3 { prop: X08, feat: "c08", tier: thorough, mode: cond, unwind: 10, caps: "drop=1,dropdoc=1" } => |s| c08::cond_shape(s, 3);
+    c08_shape_4 { prop: X08, feat: "c08", tier: thorough, mode: cond, unwind: 10, caps: "drop=1,dropdoc=1" } => |s| c08::cond_shape(s, 4);
+    c08_shape_5 { prop: X08, feat: "c08", tier: thorough, mode: cond, unwind: 10, caps: "drop=1,dropdoc=1" } => |s| c08::cond_shape(s, 5);
+    c08_shape_6 { prop: X08, feat: "c08", tier: thorough, mode: cond, unwind: 10, caps: "drop=1,dropdoc=1" } => |s| c08::cond_shape(s, 6);
+    c08_shape_7 { prop: X08, feat: "c08", tier: thorough, mode: cond, unwind: 10, caps: "drop=1,dropdoc=1" } => |s| c08::cond_shape(s, 7);
     // ---- directive-level semantics (Directive::parse on the parse context's segment list)
     c02_dir_org_lit { prop: C02, feat: "c02", tier: quick, mode: leaf, unwind: 4, caps: "drop=1" } => |s| dirsem::dir_org(s, 0);
     c02_dir_org_sym { prop: C02, feat: "c02", tier: quick, mode: leaf, unwind: 4, caps: "drop=1" } => |s| dirsem::dir_org(s, 1);
